@@ -36,7 +36,7 @@ func main() {
 	a := vh.ParseArgs()
 	switch a.Mode {
 	case "gen":
-		n, steps := 250, 420
+		n, steps := 300, 420
 		if a.Tier == "thorough" {
 			n, steps = 3000, 600
 		}
@@ -48,8 +48,10 @@ func main() {
 			r := vh.NewRand(a.Seed*1000003 + uint64(i))
 			var hdr string
 			var ops []string
-			if i%25 < len(scenarios) {
-				hdr, ops = scenarios[i%25](r)
+			// scripted and random schedules alternate in blocks: one block of every scripted
+			// schedule, then as many random ones
+			if period := 2 * len(scenarios); i%period < len(scenarios) {
+				hdr, ops = scenarios[i%period](r)
 			} else {
 				hdr, ops = generate(r, steps)
 			}
@@ -393,6 +395,7 @@ type monitor struct {
 	prevRole     map[uint64]uint64    // C18
 	votingSeen   map[uint64]map[uint64]bool // C18: peers a replica saw as voting since its last Update
 	prevCommit   map[uint64]uint64    // C02: commit index of a leader at its previous operation
+	hbAck        map[[2]uint64]map[uint64]bool // C06/C18: read ctx -> replicas that sent a HeartbeatResp carrying it
 	viol         []string
 	elections    int
 	commits      int
@@ -405,7 +408,7 @@ type monitor struct {
 
 func newMonitor() *monitor {
 	return &monitor{leaderOfTerm: map[uint64]uint64{}, voteOf: map[[2]uint64]uint64{}, committed: map[uint64]commitRec{},
-		appliedNext: map[uint64]uint64{}, readAt: map[[2]uint64]uint64{}, kinds: map[uint64]byte{}, prevRole: map[uint64]uint64{}, prevCommit: map[uint64]uint64{}}
+		appliedNext: map[uint64]uint64{}, readAt: map[[2]uint64]uint64{}, kinds: map[uint64]byte{}, prevRole: map[uint64]uint64{}, prevCommit: map[uint64]uint64{}, hbAck: map[[2]uint64]map[uint64]bool{}}
 }
 
 func (mo *monitor) v(p string, format string, a ...interface{}) {
@@ -698,14 +701,24 @@ func (mo *monitor) observe(c *raftsim.Cluster, op string, res raftsim.Result) {
 					}
 				}
 			}
+			// --- C06/C18: who acknowledged which read ctx
+			if m.Type == pb.HeartbeatResp && m.Hint != 0 {
+				k := [2]uint64{m.Hint, m.HintHigh}
+				if mo.hbAck[k] == nil {
+					mo.hbAck[k] = map[uint64]bool{}
+				}
+				mo.hbAck[k][n.ID] = true
+			}
 			// --- C06 for forwarded reads
 			if m.Type == pb.ReadIndexResp {
 				mo.checkRead(n.ID, m.Hint, m.HintHigh, m.LogIndex)
+				mo.checkReadQuorum(n)
 			}
 		}
 		for _, rr := range ud.ReadyToReads {
 			if st.Role == 3 {
 				mo.checkRead(n.ID, rr.SystemCtx.Low, rr.SystemCtx.High, rr.Index)
+				mo.checkReadQuorum(n)
 			}
 		}
 	}
@@ -721,6 +734,39 @@ func (mo *monitor) checkRead(node, low, high, index uint64) {
 	mo.reads++
 	if index < at {
 		mo.v("C06", "replica %d released read ctx %d/%d at index %d, commit index at request time was %d", node, low, high, index, at)
+	}
+}
+
+// checkReadQuorum: a leader releases a read only after a quorum of its voting members (voters
+// and witnesses, itself included) acknowledged a heartbeat carrying a read ctx (the released
+// ctx or a later one of the same queue): some ctx must have been acknowledged by enough voting
+// members. Judged only when the leader's voting set did not change since its previous Update.
+func (mo *monitor) checkReadQuorum(n *raftsim.Node) {
+	voting := map[uint64]bool{}
+	for _, rm := range raftsim.Inspect(n).Remotes {
+		if rm.Kind == 0 || rm.Kind == 2 {
+			voting[rm.ID] = true
+		}
+	}
+	if !voting[n.ID] || len(voting) != len(mo.votingSeen[n.ID]) {
+		return
+	}
+	best := 1
+	for _, ackers := range mo.hbAck {
+		cnt := 1
+		for k := range ackers {
+			if voting[k] && k != n.ID {
+				cnt++
+			}
+		}
+		if cnt > best {
+			best = cnt
+		}
+	}
+	if best < len(voting)/2+1 {
+		for _, tag := range []string{"C06", "C18"} {
+			mo.v(tag, "leader %d released a read although no read ctx was acknowledged by a quorum: at most %d of its %d voting members (itself included)", n.ID, best, len(voting))
+		}
 	}
 }
 
